@@ -13,7 +13,7 @@ from ._pairs import compare_tables, compare_all, executed_rows, table_state_keys
 
 PID = "C14"
 LEVEL = "model_checking"
-WITNESSES = ["cut_day_compared", "cut_in_season", "cut_changes_future", "extra_rows_pair", "end_extension_pair", "extension_adds_season", "thermal_crop_pair", "extension_with_off_season"]
+WITNESSES = ["cut_day_compared", "cut_in_season", "cut_changes_future", "extra_rows_pair", "end_extension_pair", "extension_adds_season", "thermal_crop_pair", "extension_with_off_season", "seasons_of_unequal_thermal_length"]
 NONTRIVIAL = ["cut_changes_future", "extra_rows_pair", "end_extension_pair"]
 
 CUT_CONFIGS = {
@@ -74,6 +74,11 @@ def scenarios(tier, seed=0):
     for name in (["Wheat", "Soybean", "Potato", "Cotton"] if q else [n for n in allnames if not n.endswith("GDD")][::2]):
         for ext in ((730,) if q else (365, 730, 1100)):
             yield {"kind": "extend", "name": name, "ext": ext, "end": "2003/04/20", "co2": {"table": [[1990, 340.0], [2001, 370.0], [2005, 450.0], [2012, 600.0]]}}
+    # thermal-time crops whose seasons differ in length by more than the 30-day harvest margin (a cool year between warm ones): the
+    # derived latest harvest date of a completed season must not depend on seasons that are added later
+    for name in (["MaizeGDD", "WheatGDD"] if q else [n for n in allnames if n.endswith("GDD")][::2]):
+        for ext in (365, 730):
+            yield {"kind": "extend", "name": name, "ext": ext, "end": "2002/12/30", "word": "warm", "blocks": [[365, 730, "WL"]]}
     # ... also with time series other than weather that reach beyond the original end date (water-table observations, dated schedule)
     for name in (["Maize", "Wheat", "PotatoGDD"] if q else allnames[::2]):
         for ext in ([365] if q else [30, 365]):
@@ -162,8 +167,11 @@ def run(scn):
         return res
 
     if scn["kind"] == "extend":
-        spec = A.catalogue_spec(scn["name"], word="hot", irr="smt", iwc="Pct50", dz="deep30" if scn.get("gw") else "d12",
+        spec = A.catalogue_spec(scn["name"], word=scn.get("word", "hot"), irr="smt", iwc="Pct50", dz="deep30" if scn.get("gw") else "d12",
                                 start="2001/04/11" if scn.get("pre") else "2001/05/01", cropkw=scn.get("cropkw"), off=bool(scn.get("off")), co2=scn.get("co2"), **({"end": scn["end"]} if scn.get("end") else {}))
+        if scn.get("blocks"):
+            spec["weather"]["blocks"] = scn["blocks"]
+            hit("seasons_of_unequal_thermal_length")
         if scn.get("off"):
             hit("extension_with_off_season")
         if scn.get("gw"):
